@@ -97,12 +97,16 @@ def symRemove (tab : List (Text × Nat)) (name : Text) : List (Text × Nat) :=
 def write (h : Heap) (p : Nat) (c : VCell) : Res Heap :=
   if p < h.cells.size then .ok { h with cells := h.cells.setIfInBounds p c } else .error "heap index is out of bounds"
 
+/-- `if let Some(VCell::Symbol(sym)) = self.heap.get(ptr) { self.symbol_table.remove(sym) }` -/
+def freeTab (cells : Array VCell) (tab : List (Text × Nat)) (p : Nat) : List (Text × Nat) :=
+  match cells[p]? with
+  | some (.symbol name) => symRemove tab name
+  | _ => tab
+
 /-- `Heap::free` -/
 def free' (h : Heap) (p : Nat) : Res Heap := do
   let h1 ← setState h p .free
-  let tab := match h1.cells[p]? with
-    | some (.symbol name) => symRemove h1.symtab name
-    | _ => h1.symtab
+  let tab := freeTab h1.cells h1.symtab p
   if p < h1.cells.size then
     .ok { h1 with symtab := tab, cells := h1.cells.setIfInBounds p VCell.undefined, free := p :: h1.free }
   else .error "free: get_mut(ptr).unwrap()"
